@@ -12,7 +12,7 @@ SPEC = dict(
           "nested <= 3, top-level comma list, leading ~, whole-pattern <a-b,c-,-d,e> ranges) over a 46-character alphabet that contains every "
           "metacharacter, printed with the minimal documented escaping or (half of the patterns) with a backslash before arbitrary literals, and "
           "matched against 12 subjects: 5 sampled from the pattern, 3 single-edit neighbours, 4 random (ranges: boundary values +-1, leading zeros, "
-          "digit prefix + junk); oracle = harness/refwild.h, a backtracking matcher over the AST.  escape: one case = 6 byte strings (1..255, every "
+          "digits + junk, sign + digits, white space before/after digits, letters, empty); oracle = harness/refwild.h, a backtracking matcher over the AST.  escape: one case = 6 byte strings (1..255, every "
           "metacharacter in first and later positions, strings that look like patterns) with all deletions/substitutions/insertions/prefixes/"
           "extensions/the escaped text as neighbours.  unique: one case = 6 arbitrary, mostly ill-formed patterns (soups, escaped text with one edit, "
           "well-formed patterns with one edit) with a candidate set of ~50 strings each.  path: one PathMatcher (1-3 path patterns of 1-3 clauses) "
@@ -23,8 +23,10 @@ SPEC = dict(
                  'checked against its printer and its matcher on every generated pattern (disagreement = HARNESS-ABORT, not a verdict)',
                  'single-byte alphabet: ? is one byte (muscle never sets a locale)',
                  'left out of the exact comparison and counted as unspecified_*: the empty pattern and "~" alone (doc: matches nothing; code: matches ""), '
-                 'numeric ranges against subjects that do not begin with a digit (doc example "<->" = "everything" contradicts "only integers"), the clause '
-                 '"-", values beyond 2^32-1 (IDs are uint32; the library wraps them), reversed bounds',
+                 'a range list that contains the fully open clause "-" against a subject that is not a digit string (doc: "<->" = "everything, same as *" '
+                 'contradicts "only integers"), values beyond 2^32-1 (IDs are uint32; the library wraps them), reversed bounds',
+                 'every other subject of a range list is judged: "<19-21> would match 19, 20, and 21 only", so a sign, white space before or after the digits, '
+                 'letters and the empty string do not match (and do match under a leading ~); leading zeros are accepted as a representation of the integer',
                  'never generated in the exact part (they pass through to POSIX regex and are documented nowhere): unescaped ^ $ { } | ) ] outside the '
                  'documented constructs, [!..] classes (complement in globbing, member in POSIX brackets), a backslash or an opening bracket inside [..], class ranges with metacharacter end points, an unescaped comma '
                  'inside a group, backtick-regex patterns, a trailing backslash; they are used in the escape, uniqueness and no-crash parts',
@@ -40,15 +42,15 @@ SPEC = dict(
         Leg('path', 'h_wildcard', 'asan', opts=O(mode='path'), quick=960, thorough=64000, workers=16, leaks=True),
         Leg('memcheck', 'h_wildcard', 'plain', opts=O(mode='all'), quick=320, thorough=8000, workers=16, valgrind=True),
     ],
-    min_stats={'regress': {'regress_checks': 190},
+    min_stats={'regress': {'regress_checks': 220},
                'exact': {'subjects_expected_match': 50000, 'subjects_expected_nomatch': 50000, 'neighbours_expected_nomatch': 10000,
-                         'patterns_numeric-range': 500, 'patterns_negated-single': 200, 'patterns_comma-list': 300, 'patterns_single+overescaped': 1500,
+                         'patterns_numeric-range': 500, 'numeric_nondigit_subjects_judged': 5000, 'patterns_negated-single': 200, 'patterns_comma-list': 300, 'patterns_single+overescaped': 1500,
                          'overescaped_literals_glibc_would_read_as_operator': 1000, 'escaped_metachar_literals': 2000, 'node_star': 4000, 'node_class': 4000, 'class_with_metachar_member': 3000, 'class_negated': 1000, 'class_with_rbracket_first': 500, 'class_with_caret_member': 400, 'class_negated_caret_first': 20,
                          'node_group': 4000, 'empty_alternative_in_group': 1000, 'max_nesting': 3, 'plain_pattern_set_after_negated_pattern': 300,
                          'setpattern_on_reused_matcher': 4000, 'patterns_reported_unique': 400},
                'escape': {'strings': 2500, 'neighbours': 50000, 'strings_with_leading_backtick': 100, 'strings_with_leading_lt': 100,
                           'strings_with_leading_tilde': 100, 'strings_that_needed_escaping': 2000},
                'unique': {'patterns_reported_unique': 800, 'candidates': 40000, 'patterns_rejected': 200, 'unique_patterns_that_are_documented_literals': 700},
-               'path': {'paths_expected_match': 800, 'paths_expected_nomatch': 1500, 'segmented_expected_match': 1000, 'segmented_expected_nomatch': 3000},
+               'path': {'numeric_nondigit_subjects_judged': 500, 'paths_expected_match': 800, 'paths_expected_nomatch': 1500, 'segmented_expected_match': 1000, 'segmented_expected_nomatch': 3000},
                'memcheck': {'subjects': 4000, 'neighbours': 4000, 'candidates': 1500, 'paths': 200}},
 )
